@@ -1,5 +1,6 @@
 import RedoModel.Lemmas.Once.DepsOnceEngine
 import RedoModel.Lemmas.Once.DepsWFOps
+import RedoModel.Lemmas.Once.DepsOG
 /-!
 # Within one `redo-ifchange` run no script is executed twice — for hygienic worlds
 
@@ -101,11 +102,18 @@ structure Clean (w : World) : Prop where
   /-- no file is named like the `//ALWAYS` pseudo file -/
   f0 : w.fs alwaysId = none
   g0 : (w.recs alwaysId).isGenerated = false
-  /-- every overridden file that exists carries no failure mark and is still recorded as generated, or is in step
-  with its record (it may have been edited again since the override was noticed: `start_self` records the new
-  stamp when it visits the file; a removed overridden file is unconstrained) -/
-  ov : ∀ z, (w.recs z).isOverride = true → existsF w z = true →
-    (w.recs z).failed = none ∧ ((w.recs z).isGenerated = true ∨ (w.recs z).stamp = some (readStamp w z))
+
+/-- Every overridden file that exists is still recorded as generated (then `start_self` refreshes its record when it
+visits it), or carries no failure mark and is in step with its record.  Holds in every reachable world, where an
+overridden record is always a generated one (`OG`, `ovOK_reachable`); only needed for hand-made worlds. -/
+def OvOK (w : World) : Prop :=
+  ∀ z, (w.recs z).isOverride = true → existsF w z = true →
+    (w.recs z).isGenerated = true ∨ ((w.recs z).failed = none ∧ (w.recs z).stamp = some (readStamp w z))
+
+theorem OvOK.of_og {w : World} (h : OG w) : OvOK w := fun z hz _ => .inl (h z hz).1
+
+theorem ovOK_reachable (d : Defects) (n : Nat) (rules : Nat → List Nat) (ops : List UserOp) :
+    OvOK (runOps d n ops (initWorld rules)) := OvOK.of_og (og_reachable d n rules ops)
 
 /-- The statement: the scripts run by `redo-ifchange ts` from `w` are pairwise different. -/
 def RanNodupFrom (d : Defects) (n : Nat) (w : World) (ts : List Nat) (kg : Bool) : Prop :=
@@ -113,7 +121,7 @@ def RanNodupFrom (d : Defects) (n : Nat) (w : World) (ts : List Nat) (kg : Bool)
   (w'.trace.filterMap (fun e => match e with | .ran t => some t | _ => none)).Nodup
 
 /-- The invariant holds at the start of a run. -/
-theorem rinv_start {w : World} (hwf : WF w) (hc : Clean w) :
+theorem rinv_start {w : World} (hwf : WF w) (hov : OvOK w) (hc : Clean w) :
     RInv (w.runCounter + 1) [] { w with trace := [], runCounter := w.runCounter + 1 } := by
   have hlt : ∀ z c, ((w.recs z).changed = some c ∨ (w.recs z).checked = some c) → c < w.runCounter + 1 := by
     intro z c h
@@ -156,8 +164,7 @@ theorem rinv_start {w : World} (hwf : WF w) (hc : Clean w) :
   · intro z hz hex
     obtain ⟨c, hc'⟩ := getRec_fields { w with trace := [], runCounter := w.runCounter + 1 } (w.runCounter + 1) z
     rw [hc'] at hz ⊢
-    obtain ⟨o1, o2⟩ := hc.ov z hz hex
-    exact .inr ⟨o1, o2.symm⟩
+    exact .inr (hov z hz hex)
   · intro z hz
     rw [hnck z] at hz; cases hz
   · intro z hz; cases hz
@@ -169,13 +176,13 @@ theorem rinv_start {w : World} (hwf : WF w) (hc : Clean w) :
     · subst hy; exact absurd hc.hyg.r0 hz
     · exact absurd hch (hchR z hy)
 
-/-- **Once per run.**  From a well-formed, clean world, a top-level `redo-ifchange` runs no script twice
+/-- **Once per run.**  From a well-formed, clean world satisfying `OvOK`, a top-level `redo-ifchange` runs no script twice
 (defect switch `oobRebuildsDepsNotTarget` off, the other switches arbitrary). -/
 theorem ran_nodup_of_wf (d : Defects) (hd : d.oobRebuildsDepsNotTarget = false) (n : Nat) (w : World) (ts : List Nat)
-    (kg : Bool) (hwf : WF w) (hc : Clean w) : RanNodupFrom d n w ts kg := by
+    (kg : Bool) (hwf : WF w) (hov : OvOK w) (hc : Clean w) : RanNodupFrom d n w ts kg := by
   unfold RanNodupFrom
   simp only [runCmd, allocRun]
-  have hinv := rinv_start hwf hc
+  have hinv := rinv_start hwf hov hc
   have hR : 0 < w.runCounter + 1 := Nat.succ_pos _
   have h := runTargets_spec (cyc := []) hR (engine_spec hR d hd (2 * n + 4)) d hd
     { runid := w.runCounter + 1, keepGoing := kg } rfl rfl rfl rfl (fun p hp => by cases hp) (2 * n + 4) ts [] false
@@ -188,6 +195,6 @@ theorem ran_nodup_reachable (d0 d : Defects) (hd : d.oobRebuildsDepsNotTarget = 
     (rules : Nat → List Nat) (ops : List UserOp) (ts : List Nat) (kg : Bool)
     (hc : Clean (runOps d0 n0 ops (initWorld rules))) :
     RanNodupFrom d n (runOps d0 n0 ops (initWorld rules)) ts kg :=
-  ran_nodup_of_wf d hd n _ ts kg (wf_reachable d0 n0 rules ops) hc
+  ran_nodup_of_wf d hd n _ ts kg (wf_reachable d0 n0 rules ops) (ovOK_reachable d0 n0 rules ops) hc
 
 end RedoModel.Deps.Once
